@@ -93,6 +93,13 @@ type ExistsE struct{ Path Expr }
 type ReadE struct{ Path Expr }
 type InputE struct{ Prompt Expr }
 
+// AppCallE is a chain of program calls: @"p1"(args) | @"p2"(args)
+type AppCallE struct{ Calls []AppOne }
+type AppOne struct {
+	Name string
+	Args []Expr
+}
+
 type Stmt interface{}
 
 type Define struct { // a, b := e1, e2   |  var a T = e | var a T
@@ -304,6 +311,15 @@ func (r *renderer) expr(e Expr) {
 		r.w("read(")
 		r.expr(x.Path)
 		r.w(")")
+	case AppCallE:
+		for i, cl := range x.Calls {
+			if i > 0 {
+				r.w(" | ")
+			}
+			r.w("@" + strconv.Quote(cl.Name) + "(")
+			r.list(cl.Args)
+			r.w(")")
+		}
 	case InputE:
 		r.w("input(")
 		if x.Prompt != nil {
@@ -918,6 +934,12 @@ func (in *Interp) stmt(s Stmt) {
 		in.rets = acc
 		in.ctl = rcReturn
 	case ExprStmt:
+		if ac, ok := x.X.(AppCallE); ok {
+			// statement form: the output of the last program goes to the script's standard output
+			out, _ := in.runApps(ac)
+			in.Out = append(in.Out, out)
+			return
+		}
 		in.eval(x.X)
 	case FuncDef:
 		f := x
@@ -1174,6 +1196,16 @@ func (in *Interp) eval(e Expr) RV {
 			}
 		}
 		return RStr{gosym.Concat(gosym.Str{Segs: append([]Unit(nil), u...)})}
+	case AppCallE:
+		out, st := in.runApps(x)
+		// captured: standard output without its trailing newline, empty stderr, exit status of the last program
+		u := out.Units()
+		if len(u) > 0 {
+			if b, ok := concChar(u[len(u)-1]); ok && b == '\n' {
+				u = u[:len(u)-1]
+			}
+		}
+		return []RV{RStr{gosym.Concat(gosym.Str{Segs: append([]Unit(nil), u...)})}, RStr{}, RInt{st}}
 	case InputE:
 		if x.Prompt != nil {
 			in.eval(x.Prompt)
@@ -1224,4 +1256,27 @@ func (in *Interp) eval(e Expr) RV {
 		}
 	}
 	panic(RefUnsupported{fmt.Sprintf("reference evaluator: expression %T", e)})
+}
+
+func (in *Interp) runApps(ac AppCallE) (gosym.Str, *sym.Term) {
+	if in.AppStub == nil {
+		panic(RefUnsupported{"reference: no program stub"})
+	}
+	// all arguments are evaluated first, left to right
+	var argv [][]gosym.Str
+	for _, cl := range ac.Calls {
+		var args []gosym.Str
+		for _, a := range cl.Args {
+			args = append(args, in.strOf(a))
+		}
+		argv = append(argv, args)
+	}
+	var stdin gosym.Str
+	var out gosym.Str
+	st := in.C.B.BV(0, 64)
+	for i, cl := range ac.Calls {
+		out, st = in.AppStub(in, cl.Name, argv[i], stdin)
+		stdin = out
+	}
+	return out, st
 }
